@@ -5,6 +5,7 @@ import (
 	"go/ast"
 	"go/token"
 	"go/types"
+	"regexp"
 	"sort"
 	"strings"
 
@@ -1183,21 +1184,63 @@ func c15Whole(c *Ctx) {
 	}
 	fs := c.Method("go.uber.org/zap/internal/stacktrace", "Formatter", "FormatStack")
 	if c.Anchor("R15.5", "stacktrace.Formatter.FormatStack", fs != nil) {
-		var ff ssa.Instruction
-		for _, cl := range Calls(fs) {
-			if IsCallTo(cl, "(*go.uber.org/zap/internal/stacktrace.Formatter).FormatFrame") {
-				ff = cl
-			}
-		}
-		ok := false
-		if ff != nil {
-			h := LoopHeader(ff.Block())
-			if h != nil {
-				if iff, isIf := h.Instrs[len(h.Instrs)-1].(*ssa.If); isIf {
-					ok = strings.HasSuffix(Desc(iff.Cond), "more") || strings.Contains(Desc(iff.Cond), "#1")
+		// by path exploration (helpers and the function values handed to them inline, up to three frames): every frame
+		// for which Next reported "more" is formatted, the one it reports last is not, and nothing else ends the loop
+		cut := 0
+		seqs, trunc := ConcPaths(fs, ConcCfg{
+			MaxIter: 3, Cut: &cut,
+			Event: func(in ssa.Instruction, st *ConcState) string {
+				switch x := in.(type) {
+				case *ssa.Call:
+					if IsCallTo(x, "(*go.uber.org/zap/internal/stacktrace.Formatter).FormatFrame") {
+						return "format"
+					}
+					if IsCallTo(x, "(*go.uber.org/zap/internal/stacktrace.Stack).Next") {
+						return "next"
+					}
+				case *ssa.Return:
+					if len(st.cfg.stackDepth()) == 0 {
+						return "ret"
+					}
 				}
+				return ""
+			},
+			Branch: func(cond ssa.Value, taken bool, st *ConcState) string {
+				pol := taken
+				for k := 0; k < 8; k++ {
+					if u, isU := cond.(*ssa.UnOp); isU && u.Op == token.NOT {
+						cond, pol = u.X, !pol
+						continue
+					}
+					if nx := st.Step(cond); nx != nil {
+						cond = nx
+						continue
+					}
+					break
+				}
+				if ex, isEx := cond.(*ssa.Extract); isEx && ex.Index == 1 {
+					if cl, isCall := ex.Tuple.(*ssa.Call); isCall && IsCallTo(cl, "(*go.uber.org/zap/internal/stacktrace.Stack).Next") {
+						if pol {
+							return "more"
+						}
+						return "last"
+					}
+				}
+				return ""
+			},
+		})
+		re := regexp.MustCompile(`^(next ; more ; format ; )*next ; last ; ret$`)
+		ok := !trunc && len(seqs) > 0
+		nLoop := 0
+		for _, sq := range seqs {
+			if !re.MatchString(sq) {
+				ok = false
+			}
+			if strings.Contains(sq, "format") {
+				nLoop++
 			}
 		}
+		ok = ok && nLoop > 0
 		c.Check(ok, "R15.5", FStr(fs), "drops-only-last", fs.Pos(), "every frame is formatted while more frames follow; only the final (runtime) frame is dropped")
 	}
 }
